@@ -13,9 +13,11 @@ class TypedValue:
     opts = {"decreases": "NodeCoords nesting depth of `value` (a finite acyclic wrapper chain)"}
     ensures = [
         "implies(value is None, result is None)",
-        "implies(value is not None and not isinstance(value, NodeCoords) and str(value).lower() == 'true', same(result, True))",
-        "implies(value is not None and not isinstance(value, NodeCoords) and str(value).lower() == 'false', same(result, False))",
-        "implies(value is not None and not isinstance(value, NodeCoords) and str(value).lower() not in ('true', 'false'),"
+        # ruamel's wrapper of an anchored boolean stands for that boolean
+        "implies(isinstance(value, ScalarBoolean), isinstance(result, bool))",
+        "implies(value is not None and not isinstance(value, (NodeCoords, ScalarBoolean)) and str(value).lower() == 'true', same(result, True))",
+        "implies(value is not None and not isinstance(value, (NodeCoords, ScalarBoolean)) and str(value).lower() == 'false', same(result, False))",
+        "implies(value is not None and not isinstance(value, (NodeCoords, ScalarBoolean)) and str(value).lower() not in ('true', 'false'),"
         " same(result, literal(value) if literal_ok(value) else value))",
     ]
 
